@@ -389,7 +389,7 @@ func renderSweep() {
 			}
 		}
 	}
-	zs := [][]int{{0, 0, 0}, {0, 1, 2}, {2, 1, 0}, {1, 0, 2}, {5, 5, 1}}
+	zs := [][]int{{0, 0, 0}, {0, 1, 2}, {2, 1, 0}, {1, 0, 2}, {5, 5, 1}, {0, -1, -2}, {0, 0, -1}, {-1, 0, 0}, {-3, -3, -1}, {-1, 2, 0}}
 	var cur func() vxfw.Surface
 	root.surf = func() vxfw.Surface { return cur() }
 	cur = func() vxfw.Surface { return filled(W, H, ".", root) }
